@@ -39,7 +39,8 @@ class Hooks:
             return True
         if fn.path in self.names:
             return False
-        return not (self.prefixes and fn.path.startswith(self.prefixes))
+        path = fn.path[1:] if fn.path.startswith("<") else fn.path        # `<module::Type as Trait>::method` belongs to the type's module
+        return not (self.prefixes and path.startswith(self.prefixes))
 
 
 # The vocabulary of the evaluation layer: functions that the specifications mention by name and that therefore stay opaque when
